@@ -1732,7 +1732,7 @@ Proof.
   assert (Ereps : reps = rr ++ mr) by (symmetry; apply firstn_skipn).
   assert (Lrl : length rl <= length reps).
   { assert (H1 : length letters = length reps) by (subst letters; apply map_length).
-    pose proof (f_equal (@length N) Esplit) as H2. rewrite app_length in H2. fold rl in H2. lia. }
+    pose proof (f_equal (@length N) Esplit) as H2. rewrite app_length in H2. fold rl in H2. clear - H1 H2. lia. }
   assert (Err : map (fun r => hd 0%N r) rr = rl).
   { unfold rr. rewrite <- firstn_map. change (map (fun r : list N => hd 0%N r) reps) with letters.
     rewrite Esplit, firstn_app, Nat.sub_diag, firstn_all. cbn [firstn]. apply app_nil_r. }
@@ -1765,7 +1765,7 @@ Proof.
       - apply orb_true_iff. left. apply existsb_exists. exists (hd 0%N r). split; [rewrite <- Err; apply in_map; exact Hin|].
         rewrite Hr. apply N.eqb_refl.
       - apply orb_true_iff. right. rewrite <- Lrr, Hrr. reflexivity. }
-    rewrite Hx in Hpres. cbn [negb orb] in Hpres. apply Nat.eqb_eq in Hpres. lia. }
+    rewrite Hx in Hpres. cbn [negb orb] in Hpres. apply Nat.eqb_eq in Hpres. clear - Hpres Lmr. lia. }
   split.
   { intros m Hin Hm.
     assert (Hx : existsb (N.eqb L_K) ml = true).
@@ -1782,7 +1782,7 @@ Proof.
       apply andb_true_iff in Hc as [Hle Hc]. apply Nat.leb_le in Hle.
       apply existsb_exists in Hc as (p & Hp & Hc). apply existsb_exists in Hc as (t & Ht & Hc).
       apply andb_true_iff in Hc as [Heq Hfl]. apply bytes_eqb_eq in Heq.
-      exists j, p, t. split; [rewrite Lrr; lia|]. split; [exact Hp|]. split; [exact Ht|]. split; [exact Heq|].
+      exists j, p, t. split; [rewrite Lrr; clear - Hj Hle; lia|]. split; [exact Hp|]. split; [exact Ht|]. split; [exact Heq|].
       destruct t as [tf tb]. cbn [fst snd] in *. intros Hf. subst tf. cbn [negb orb] in Hfl. apply andb_true_iff in Hfl as [Ha Hb].
       apply Nat.eqb_eq in Hb. split; [|exact Hb]. apply existsb_hd. rewrite Err. exact Ha. }
 Qed.
